@@ -12,10 +12,6 @@ FILES = [SV + f for f in ("tcell.py", "treg.py", "thymus.py", "immune_system.py"
 RANK = {"IGNORE": 0, "MONITOR": 1, "ALERT": 1.5, "ISOLATE": 2, "SHUTDOWN": 3}
 
 
-def _positive(d):
-    """truth value of the *positive* canonical symbol of a decision (fdai canonicalises >= as ¬<, <= as ¬>)"""
-    return d[1]
-
 
 def _reached(d):
     """decision on `count >= threshold` (canonical sym `(count < threshold)`, negated): the test expression held"""
